@@ -372,12 +372,62 @@ mod probes {
         }
     }
 
+
+    // ------------------------------------------------------------------------------- C13
+    mod c13 {
+        use super::*;
+        use crate::metrics::binary_f1;
+
+        /// F-beta through the public binary_f1 on vectors with the given four-way counts (this reaches metrics::_f1)
+        pub fn check(tp: usize, fp: usize, fn_: usize, beta: f64) -> Result<(), String> {
+            let mut p = vec![];
+            let mut t = vec![];
+            for _ in 0..tp { p.push(true); t.push(true); }
+            for _ in 0..fp { p.push(true); t.push(false); }
+            for _ in 0..fn_ { p.push(false); t.push(true); }
+            let (f1, prec, rec) = binary_f1(&p, &t, beta).map_err(|e| e.to_string())?;
+            for (name, v) in [("f1", f1), ("precision", prec), ("recall", rec)] {
+                if !v.is_finite() || !(0.0..=1.0).contains(&v) {
+                    return Err(format!("tp={tp} fp={fp} fn={fn_} beta={beta}: {name} = {v} is not a finite value in [0,1]"));
+                }
+            }
+            if fp == 0 && fn_ == 0 && tp > 0 && (f1, prec, rec) != (1.0, 1.0, 1.0) {
+                return Err(format!("tp={tp} fp=0 fn=0: expected (1,1,1), got ({f1},{prec},{rec})"));
+            }
+            if tp == 0 && (f1, prec, rec) != (0.0, 0.0, 0.0) {
+                return Err(format!("tp=0 fp={fp} fn={fn_}: expected (0,0,0), got ({f1},{prec},{rec})"));
+            }
+            Ok(())
+        }
+
+        pub fn replay(input: &Value) -> Result<(), String> {
+            check(
+                input["tp"].as_u64().unwrap_or(0) as usize,
+                input["fp"].as_u64().unwrap_or(0) as usize,
+                input["fn_"].as_u64().unwrap_or(0) as usize,
+                input["beta"].as_f64().unwrap_or(1.0),
+            )
+        }
+
+        pub fn search() -> Option<(Value, String)> {
+            for beta in [0.5, 1.0, 2.0] {
+                for tp in 0..6 { for fp in 0..6 { for fn_ in 0..6 {
+                    if let Err(e) = check(tp, fp, fn_, beta) {
+                        return Some((json!({"tp": tp, "fp": fp, "fn_": fn_, "beta": beta}), e));
+                    }
+                } } }
+            }
+            None
+        }
+    }
+
     fn dispatch_replay(prop: &str, input: &Value) -> Result<(), String> {
         match prop {
             "C04" => c04::replay(input),
             "C12" => c12::replay(input),
             "C07" => c07::replay(input),
             "C15" => c15::replay(input),
+            "C13" => c13::replay(input),
             _ => Err(format!("no probe for {prop}")),
         }
     }
@@ -388,6 +438,7 @@ mod probes {
             "C12" => c12::search(),
             "C07" => c07::search(),
             "C15" => c15::search(),
+            "C13" => c13::search(),
             _ => None,
         }
     }
